@@ -30,7 +30,8 @@ REQUIRED_SITES = {"idiv64": 1000, "idiv64.y1": 20, "idiv128.hi_ge": 500, "knuth"
                   "shdm.none": 200, "shdm.neg_pos": 200, "shdm.exact_neg": 50,
                   "i256.none": 200, "i256.neg": 200, "i256.exact_neg": 50,
                   "mulr.wide": 100, "divr.less.wide": 100, "round_quot.overflow": 2,
-                  "knuth.q1.rhat_eq_b": 50, "knuth.q0.rhat_eq_b": 50, "knuth.q1.eq": 20, "knuth.q0.eq": 20}
+                  "knuth.q1.rhat_eq_b": 50, "knuth.q0.rhat_eq_b": 50, "knuth.q1.eq": 20, "knuth.q0.eq": 20,
+                  "knuth.q1.est_gt_b": 5, "knuth.q0.est_gt_b": 20}
 THOROUGH_SITE_FACTOR = 20
 BUDGET = {"quick": 25, "thorough": 400}
 N_RANDOM = {"quick": 16000, "thorough": 40000}
